@@ -19,6 +19,7 @@
  Re for-each      : loops that act on every item are never left early (break / return).
  Ra alias mutation: a local that still names a list of another object (not copied) is never mutated in place.
  Rn arg roles     : a variable named like a parameter of the callee is handed to that parameter (no exchanged roles).
+ R8 inputs        : spectrum map layout (shared with C15-R1); slots needed = ceil(spacing/slot width) x ceil(bandwidth/bit rate).
 """
 import ast
 
@@ -741,6 +742,28 @@ def rn_arg_roles(ctx):
     ctx.check('Rn.arg-roles', 'argument / parameter name scan', True, 'C14|arg-roles-scan', '', f'{n} argument(s) named like another parameter judged')
 
 
+def r8_inputs(ctx):
+    """R8: what the assignment works ON: the spectrum map marks as FREE exactly the amplified bands, each at its own slot positions
+    (layout of create_oms_bitmap, shared with C15-R1), and the number of slots a request needs is
+    ceil(spacing / slot width) x ceil(bandwidth / bit rate) (value graph of compute_spectrum_slot_vs_bandwidth)"""
+    from .c15 import r1_layout
+    from .common import proxy
+    r1_layout(proxy(ctx, 'R8'))
+    repo = ctx.repo
+    f = repo.func('gnpy.topology.request', 'compute_spectrum_slot_vs_bandwidth')
+    ev = Evaluator(repo, f).run_function()
+    r = ev.ret()
+    bw, sp, br, sw = (Rat.sym(p) for p in f.params[:4])
+    from ..poly import fn
+    ok = isinstance(r, (tuple, list)) and len(r) == 2 and isinstance(r[0], Rat) and isinstance(r[1], Rat) and \
+        r[0].eq(fn('ceil', bw / br)) and r[1].eq(fn('ceil', sp / sw) * fn('ceil', bw / br))
+    ctx.check('R8.slots-needed', site(f), ok, key(f, 'slots-needed'),
+              'the slots a request needs are not ceil(spacing / slot_width) per wavelength times ceil(bandwidth / bit_rate) wavelengths: '
+              'a spacing that is not a multiple of the slot width would be under-served (and an insufficient fixed M accepted)',
+              vkey(r)[:200] if not isinstance(r, (tuple, list)) else ' , '.join(vkey(x)[:90] for x in r))
+    ctx.need('R8.slots-needed', 1)
+
+
 from ..memo import rule_for as _memo_rule
 
 RULES_MEMO = ('Rm.memo', _memo_rule('C14', 'spectrum availability computed for another state would be reused'))
@@ -750,4 +773,4 @@ from ..presence import rule_for as _presence_rule
 
 RULES_PRESENCE = ('Rp.presence', _presence_rule('C14', 'a user-fixed slot N = 0 (the grid anchor) would be treated as not given and placed elsewhere'))
 
-RULES = [('R7.window', r7_window), ('R6.merge-probe', r6_merge_and_probe), ('R1.fresh', r1_fresh), ('R2.commit', r2_commit), ('R4.slots', r4_slots), ('R5.first-fit', r5_first_fit), RULES_MEMO, RULES_PRESENCE, ('Re.for-each', re_foreach), ('Ra.alias-mutation', ra_alias), ('Rn.arg-roles', rn_arg_roles)]
+RULES = [('R7.window', r7_window), ('R6.merge-probe', r6_merge_and_probe), ('R1.fresh', r1_fresh), ('R2.commit', r2_commit), ('R4.slots', r4_slots), ('R5.first-fit', r5_first_fit), RULES_MEMO, RULES_PRESENCE, ('Re.for-each', re_foreach), ('Ra.alias-mutation', ra_alias), ('Rn.arg-roles', rn_arg_roles), ('R8.inputs', r8_inputs)]
